@@ -60,7 +60,8 @@ func main() {
 		"leader Sync+GC) followed by a fault-free progress phase; more than half of the sequences start with a directed prefix " +
 		"(leader loses a tail of 1..4 messages the follower has; follower loses its log after the leader released positions; follower re-creates its log behind a healthy stream; " +
 		"established channel - node failure - appends - node startup at the same/another address - appends; node-startup event processed right after IsReady was told 'not live', " +
-		"or between IsReady's suspend flag and its second look at the live nodes). " +
+		"or between IsReady's suspend flag and its second look at the live nodes; such a raced offline period followed by traffic and one or two ordinary offline periods " +
+		"(node failure - append - steps until the handshake parks - node startup - appends)). " +
 		"Non-trivial = a fault actually happened (a one-shot fault fired, a stream was killed, a node restarted) and a handshake completed afterwards; distinct by event list.")
 	c.Assume("a node restart is modelled as Close + reopen of the same directory (dirty mapped pages survive a process kill, so the directory content is the same)")
 	c.Assume("a follower restart always breaks the replica stream (the TCP connection dies with the process)")
@@ -71,6 +72,10 @@ func main() {
 		"calls through a client of a closed connection fail ('the client connection is closing'), calls over a connection to an address the follower left are refused")
 	c.Assume("the state manager processes a node event under its write lock (node map update, watcher calls, connection close), GetLiveNode takes the read lock - as coordinator/storage/state_manager.go does; " +
 		"a deadlock is decided from one goroutine snapshot (event blocked sending to the replicator under the lock, replicator blocked on the lock), never from elapsed time")
+	c.Assume("a replicator whose follower is offline either returns from its handshake or blocks until the node-startup event: one that has been told 'not live' 64 times by the state manager " +
+		"within one Prepare (free-running: since the last node event) without standing blocked in IsReady's receive is judged spinning (a parking one asks twice); " +
+		"decided from that count and one goroutine snapshot (IsReady more than 50 times on its stack = unbounded recursion), never from elapsed time; " +
+		"after the verdict the harness makes the follower live so that the goroutine unwinds (the fake state manager's goroutine-id bookkeeping walks the caller's stack, which slows a recursing caller down long before its stack reaches the runtime's limit)")
 	c.Assume("the local replicator on the follower (log -> tsdb) is not run; only the log copy is judged")
 	nSeq := c.Pick(1600, 100000)
 	per := c.Pick(25, 250)
@@ -101,6 +106,7 @@ func main() {
 	defer os.RemoveAll(logBase)
 	results := make([]*batchResult, len(jobs))
 	died := make([]string, len(jobs))
+	overflow := make([]bool, len(jobs))
 	core.Parallel(len(jobs), 16, func(i int) {
 		j := jobs[i]
 		dir := filepath.Join(scratch, fmt.Sprintf("%s%05d", j.kind, j.from))
@@ -127,6 +133,10 @@ func main() {
 			died[i] = "watchdog"
 		} else if err != nil || res.ExitCode != 0 {
 			death := res.Death
+			if strings.Contains(death, "stack overflow") && strings.Count(death, "replica.(*remoteReplicator).IsReady(") >= 3 && strings.Contains(death, "replica/replicator_remote.go") {
+				// the child died of "goroutine stack exceeds ...-byte limit" and the overflowing stack is IsReady calling itself
+				overflow[i] = true
+			}
 			if len(death) > 3000 {
 				death = death[:3000]
 			}
@@ -144,7 +154,14 @@ func main() {
 			continue
 		}
 		if died[i] != "" {
-			if strings.Contains(died[i], "lindb/replica") || strings.Contains(died[i], "lindb/pkg/queue") || strings.Contains(died[i], "app/storage/rpc") {
+			if overflow[i] {
+				// same finding as the one decided inside the child from the goroutine snapshot (reportSpin), seen from
+				// outside: the recursion was faster than the driver's look at it
+				c.Count("oracle.replicator_spin_detected.as_child_death_by_stack_overflow", 1)
+				c.Violation("C08/no-resync/replicator-spins-instead-of-parking-while-follower-offline/unbounded-recursion-in-IsReady",
+					fmt.Sprintf("batch %s %d-%d: the child process died with a stack overflow inside remoteReplicator.IsReady (replica/replicator_remote.go): IsReady calls itself without blocking: %s",
+						j.kind, j.from, j.to, died[i]), nil)
+			} else if strings.Contains(died[i], "lindb/replica") || strings.Contains(died[i], "lindb/pkg/queue") || strings.Contains(died[i], "app/storage/rpc") {
 				c.Violation("C08/process-died-in-replication", fmt.Sprintf("batch %d-%d: %s", j.from, j.to, died[i]), nil)
 			} else {
 				c.Inconclusive("batch %d-%d: child failed: %s", j.from, j.to, tailStr(died[i], 800))
@@ -217,6 +234,14 @@ func main() {
 		"lifecycle.sequences_with_offline_online_at_same_address_then_append",
 		"lifecycle.handshake_completed_over_connection_reopened_after_node_failure",
 		"fault.online_notification.follower_moved_to_other_address", "fault.fired.onlineRecheckRace",
+		// the suspend protocol over more than one offline period: a run that never parked a replicator AFTER a raced
+		// online notification (of either kind) and never woke it again says nothing about what the race leaves behind
+		"fault.fired.onlineRace.replicator_went_on_without_waiting", "fault.fired.onlineRecheckRace.event_completed_and_replicator_went_on",
+		"oracle.offline_prepares_judged_parked_not_spinning",
+		"lifecycle.later_offline_period_after_raced_online_notification.parked.onlineRace",
+		"lifecycle.later_offline_period_after_raced_online_notification.parked.onlineRecheckRace",
+		"lifecycle.later_offline_period_after_raced_online_notification.woken_and_channel_ready.onlineRace",
+		"lifecycle.later_offline_period_after_raced_online_notification.woken_and_channel_ready.onlineRecheckRace",
 	} {
 		if c.Counter(k) == 0 {
 			c.Inconclusive("never observed: %s", k)
